@@ -473,6 +473,200 @@ example : ∃ r, runForever exSave = some r ∧ r.phase = .initFailed ∧ r.stor
   refine ⟨_, rfl, ?_⟩
   decide +kernel
 
+/-! ### the repaired `_run_tasks` waits for the tasks it cancels
+    (patches/C08-run-tasks-awaits-cancelled.diff) -/
+
+theorem atCancel_time_le (L T : Nat) (x : Job) : (Job.atCancel L T x).time ≤ max L T := by
+  rw [LifecycleTie.atCancel_time]
+  split
+  · next hd => have := doneBy_time x L hd; omega
+  · exact Nat.min_le_left _ _
+
+/-- a cancelled loop: which job was being awaited, and when the loop ends -/
+theorem awaitJobs_cancel_shape (limit : Option Nat) (T now : Nat) (js : List Job)
+    (h : (awaitJobs limit T now js).2.2 = true) :
+    ∃ l j, limit = some l ∧ j ∈ js ∧
+      (⟨j.k, l + j.cdur, .cancelled⟩ : JobEnd) ∈ (awaitJobs limit T now js).1 ∧
+      l + j.cdur ≤ (awaitJobs limit T now js).2.1 ∧
+      (awaitJobs limit T now js).2.1 ≤ max (l + j.cdur) T := by
+  induction js generalizing now with
+  | nil => simp [awaitJobs] at h
+  | cons j js ih =>
+    unfold awaitJobs at h ⊢
+    split at h
+    · next hd =>
+      obtain ⟨l, x, h1, h2, h3, h4⟩ := ih _ h
+      simp only [hd, if_true]
+      exact ⟨l, x, h1, by simp [h2], by simp [h3], h4⟩
+    · next hnd =>
+      simp only [hnd, if_false, Bool.false_eq_true]
+      cases hc : cancelledBefore limit (j.wake now).1 with
+      | some l =>
+        refine ⟨l, j, (LifecycleTie.cancelledBefore_some hc).1, by simp, by simp, ?_, ?_⟩
+        · simp only [LifecycleTie.lastEnd_map]
+          exact LifecycleTie.foldl_max_ge _ _ _
+        · simp only [LifecycleTie.lastEnd_map]
+          exact LifecycleTie.foldl_max_le _ _ _ _ (Nat.le_max_left _ _) (fun x _ => atCancel_time_le _ _ x)
+      | none =>
+        simp only [hc] at h
+        obtain ⟨l, x, h1, h2, h3, h4⟩ := ih _ h
+        exact ⟨l, x, h1, by simp [h2], by simp [h3], h4⟩
+
+/-- nothing ends after a cancelled loop has ended -/
+theorem awaitJobs_cancel_times (limit : Option Nat) (T now : Nat) (js : List Job)
+    (hlim : ∀ l, limit = some l → now ≤ l)
+    (h : (awaitJobs limit T now js).2.2 = true) :
+    now ≤ (awaitJobs limit T now js).2.1 ∧
+      ∀ e ∈ (awaitJobs limit T now js).1, e.time ≤ (awaitJobs limit T now js).2.1 := by
+  induction js generalizing now with
+  | nil => simp [awaitJobs] at h
+  | cons j js ih =>
+    unfold awaitJobs at h ⊢
+    split at h
+    · next hd =>
+      obtain ⟨h1, h2⟩ := ih _ hlim h
+      simp only [hd, if_true]
+      refine ⟨h1, ?_⟩
+      intro e he
+      simp only [List.mem_cons] at he
+      rcases he with rfl | he
+      · have := doneBy_time j now hd; simp only; omega
+      · exact h2 e he
+    · next hnd =>
+      have hnd' : j.doneBy now = false := by simpa using hnd
+      have hge := LifecycleTie.wake_ge j now hnd'
+      simp only [hnd, if_false, Bool.false_eq_true]
+      cases hc : cancelledBefore limit (j.wake now).1 with
+      | some l =>
+        simp only [LifecycleTie.lastEnd_map]
+        have hL : l + j.cdur ≤ js.foldl (fun m x => max m (Job.atCancel (l + j.cdur) T x).time) (l + j.cdur) :=
+          LifecycleTie.foldl_max_ge _ _ _
+        have hl := hlim l (LifecycleTie.cancelledBefore_some hc).1
+        refine ⟨by omega, ?_⟩
+        · intro e he
+          simp only [List.mem_cons, List.mem_map] at he
+          rcases he with rfl | ⟨x, hx, rfl⟩
+          · exact hL
+          · exact LifecycleTie.foldl_max_mem (fun x => (Job.atCancel (l + j.cdur) T x).time) js _ x hx
+      | none =>
+        simp only [hc] at h
+        obtain ⟨h1, h2⟩ := ih _ (LifecycleTie.cancelledBefore_none hc) h
+        dsimp only
+        refine ⟨by omega, ?_⟩
+        intro e he
+        simp only [List.mem_cons] at he
+        rcases he with rfl | he
+        · exact h1
+        · exact h2 e he
+
+/-- no task is left pending if a cancelled task ends at once -/
+theorem awaitJobs_no_pending (limit : Option Nat) (T now : Nat) (js : List Job)
+    (h0 : ∀ j ∈ js, j.cdur = 0) : ∀ e ∈ (awaitJobs limit T now js).1, e.res ≠ .pending := by
+  have hfin : ∀ j : Job, j.fin ≠ .pending := by intro j; unfold Job.fin; split <;> simp
+  induction js generalizing now with
+  | nil => simp [awaitJobs]
+  | cons j js ih =>
+    have ih' := fun now => ih now (fun x hx => h0 x (by simp [hx]))
+    unfold awaitJobs
+    split
+    · intro e he
+      simp only [List.mem_cons] at he
+      rcases he with rfl | he
+      · exact hfin j
+      · exact ih' _ e he
+    · cases hc : cancelledBefore limit (j.wake now).1 with
+      | some l =>
+        intro e he
+        simp only [List.mem_cons, List.mem_map] at he
+        rcases he with rfl | ⟨x, hx, rfl⟩
+        · simp
+        · have hx0 : x.cdur = 0 := h0 x (by simp [hx])
+          unfold Job.atCancel Job.cancelEnd
+          have hle : l + j.cdur + x.cdur ≤ max (l + j.cdur) T := by omega
+          cases hxd : x.dur with
+          | none => simp only [hle, if_true]; simp
+          | some d =>
+            simp only [hle, if_true]
+            split
+            · exact hfin x
+            · simp
+      | none =>
+        intro e he
+        simp only [List.mem_cons] at he
+        rcases he with rfl | he
+        · rcases LifecycleTie.wake_res j now with hw | ⟨_, hw⟩
+          · simp [hw]
+          · simp only [hw]; exact hfin j
+        · exact ih' _ e he
+
+/-- **the cancelled tasks are awaited**: when `_run_tasks` is cancelled, nothing – cancelled,
+    pending or ended before – has an end later than the instant `_run_tasks` itself ends (the
+    instant the CancelledError leaves it), and no task is left running behind (`.pending`) if the
+    cancelled tasks end at once (`cdur = 0`, i.e. no `await` in their clean-up).  In general a task
+    is `.pending` exactly when its `cdur` does not fit into the longest time-out (`Job.cancelEnd`):
+    the wait is bounded, see `cancelled_run_tasks_bounded`. -/
+theorem cancelled_jobs_are_awaited (limit : Option Nat) (js : List Job)
+    (h : (runTasks limit js).2.2 = true) :
+    (∀ e ∈ (runTasks limit js).1, e.time ≤ (runTasks limit js).2.1) ∧
+    ((∀ j ∈ js, j.cdur = 0) → ∀ e ∈ (runTasks limit js).1, e.res ≠ .pending) := by
+  refine ⟨(awaitJobs_cancel_times limit _ 0 _ (fun l _ => Nat.zero_le l) h).2, ?_⟩
+  intro h0
+  exact awaitJobs_no_pending limit _ 0 _ (fun j hj => h0 j ((sortJobs_perm js).mem_iff.1 hj))
+
+/-- **the wait is bounded**: a `_run_tasks` cancelled at `l` was awaiting some job `j`, which ends
+    at `l + j.cdur`; `_run_tasks` ends then or later, but not later than the longest time-out
+    (counted from the creation of the tasks) -/
+theorem cancelled_run_tasks_bounded (l : Nat) (js : List Job)
+    (h : (runTasks (some l) js).2.2 = true) :
+    ∃ j ∈ js, (⟨j.k, l + j.cdur, .cancelled⟩ : JobEnd) ∈ (runTasks (some l) js).1 ∧
+      l + j.cdur ≤ (runTasks (some l) js).2.1 ∧
+      (runTasks (some l) js).2.1 ≤ max (l + j.cdur) (deadline (sortJobs js)) := by
+  obtain ⟨l', j, h1, h2, h3, h4, h5⟩ := awaitJobs_cancel_shape (some l) _ 0 _ h
+  simp only [Option.some.injEq] at h1
+  subst h1
+  exact ⟨j, (sortJobs_perm js).mem_iff.1 h2, h3, h4, h5⟩
+
+/-- three init tasks, `_run_tasks` cancelled at 2 while awaiting task 0 (time-out 9): task 0 needs 1
+    to finish, then task 1 (cancelled at 3) needs 4 and task 2 needs 20 – more than the longest
+    time-out allows: `_run_tasks` ends at 9 with task 2 still pending -/
+def exJobs : List Job :=
+  [⟨0, some 5, 9, true, 1⟩, ⟨1, none, 6, true, 4⟩, ⟨2, some 8, 3, true, 20⟩]
+
+theorem exJobs_sorted : sortJobs exJobs = exJobs := by
+  unfold sortJobs; exact List.mergeSort_of_pairwise (by decide)
+
+example : runTasks (some 2) exJobs =
+    ([⟨0, 3, .cancelled⟩, ⟨1, 7, .cancelled⟩, ⟨2, 9, .pending⟩], 9, true) := by
+  rw [runTasks, exJobs_sorted]; decide +kernel
+
+theorem exJobs_cancelled : (runTasks (some 2) exJobs).2.2 = true := by
+  rw [runTasks, exJobs_sorted]; decide +kernel
+
+/-- `cancelled_jobs_are_awaited` is not vacuous: its hypothesis holds for `exJobs` -/
+example : ∀ e ∈ (runTasks (some 2) exJobs).1, e.time ≤ (runTasks (some 2) exJobs).2.1 :=
+  (cancelled_jobs_are_awaited (some 2) exJobs exJobs_cancelled).1
+
+/-- `cancelled_run_tasks_bounded` is not vacuous -/
+example : ∃ j ∈ exJobs, (runTasks (some 2) exJobs).2.1 ≤ max (2 + j.cdur) (deadline (sortJobs exJobs)) := by
+  obtain ⟨j, hj, _, _, h⟩ := cancelled_run_tasks_bounded 2 exJobs exJobs_cancelled
+  exact ⟨j, hj, h⟩
+
+/-- … and with tasks that end at once when cancelled everything is over at the instant of the
+    cancellation, nothing is pending -/
+def exJobs0 : List Job :=
+  [⟨0, some 5, 9, true, 0⟩, ⟨1, none, 6, true, 0⟩, ⟨2, some 8, 3, true, 0⟩]
+
+theorem exJobs0_sorted : sortJobs exJobs0 = exJobs0 := by
+  unfold sortJobs; exact List.mergeSort_of_pairwise (by decide)
+
+example : runTasks (some 2) exJobs0 =
+    ([⟨0, 2, .cancelled⟩, ⟨1, 2, .cancelled⟩, ⟨2, 2, .cancelled⟩], 2, true) := by
+  rw [runTasks, exJobs0_sorted]; decide +kernel
+
+example : ∀ e ∈ (runTasks (some 2) exJobs0).1, e.res ≠ .pending :=
+  (cancelled_jobs_are_awaited (some 2) exJobs0 (by rw [runTasks, exJobs0_sorted]; decide +kernel)).2
+    (by decide)
+
 end Edzed.Lifecycle
 
 /-!
@@ -492,15 +686,18 @@ open Edzed Edzed.Lifecycle Edzed.LifecycleTie Edzed.Gen Edzed.Gen.TrD
     freshly created tasks (`limit` = the instant at which the awaiting task is cancelled, if ever)
     it ends at the same instant, every task has the fate the model gives it (returned / raised /
     cancelled by its time-out with the remaining-time expression `timeout - get_time() + start_time`
-    / cancelled together with `_run_tasks`, the OTHER unfinished tasks included), and it re-raises the
-    CancelledError exactly when the model's loop is cancelled, otherwise returns -/
+    / cancelled together with `_run_tasks`, the OTHER unfinished tasks included, which are then WAITED
+    FOR – `asyncio.wait(<all tasks>, timeout=btt_list[0][2] - get_time() + start_time)` after the
+    cancel loop and before the `raise`: each ends `cdur` after its cancellation or is `.pending` at the
+    bound), and it re-raises the CancelledError exactly when the model's loop is cancelled, otherwise
+    returns -/
 theorem translated_lifecycle_run_tasks_is_model (limit : Option Nat) (js : List Job)
     (hnd : (js.map (·.k)).Nodup) :
     ∃ s' o, TrL.runTasks (rtPrims limit) js ⟨0, fun _ => none⟩ = (s', o) ∧
-      s'.now = (awaitJobs limit 0 (sortJobs js)).2.1 ∧
-      (sortJobs js).map (fateOf s') = (awaitJobs limit 0 (sortJobs js)).1 ∧
-      ((awaitJobs limit 0 (sortJobs js)).2.2 = true → o = .raise .cancelled) ∧
-      ((awaitJobs limit 0 (sortJobs js)).2.2 = false → o = .next ()) :=
+      s'.now = (runTasks limit js).2.1 ∧
+      (sortJobs js).map (fateOf s') = (runTasks limit js).1 ∧
+      ((runTasks limit js).2.2 = true → o = .raise .cancelled) ∧
+      ((runTasks limit js).2.2 = false → o = .next ()) :=
   runTasks_spec limit js hnd
 
 /-- `_stop_sblocks` IS the model's `stopSblocks`: the asynchronous set is `has stop_async ∧
